@@ -837,7 +837,7 @@ def _seq_differential_once(ctx, spec, exe, proofs_ok, tag, scale, with_corpus, e
         reported_sigs.add(sig)
         case = cases[cid]
         small = case
-        if spec.shrinkable() and len(case.get("ops", [])) > 1:
+        if spec.shrinkable() and env is None and len(case.get("ops", [])) > 1:      # (no shrinking in patience mode: seconds per run)
             def still(ops, case=case, sig=sig):
                 cc = dict(case, ops=ops)
                 ob = rerun(cc)
@@ -858,7 +858,7 @@ def _seq_differential_once(ctx, spec, exe, proofs_ok, tag, scale, with_corpus, e
         cid = only[0]
         case = cases[cid]
         small = case
-        if spec.shrinkable() and len(case.get("ops", [])) > 1:
+        if spec.shrinkable() and env is None and len(case.get("ops", [])) > 1:      # (no shrinking in patience mode: seconds per run)
             budget = [30]
 
             def still_m(ops, case=case, cname=cname):
